@@ -419,6 +419,12 @@ def handleTimer (s : St) (due : Bool) : Except String St :=
 
 /-- outcomes of the frame writers called by `datagrams_to_send` -/
 structure Writers where
+  /-- `QuicPacketBuilder.start_packet(...)` — called first inside each of the three `try` blocks
+      (directly in the close loop, through `_write_handshake` / `_write_application` otherwise):
+      header-size check (`QuicPacketBuilderStop`) then `buf.seek(packet_start + header_size)`, which
+      raises `BufferReadError` when the header (CIDs + Initial token from Retry / NEW_TOKEN) would
+      not fit; model + proof that it does not: AQ.Model.Builder.startPacket, AQ.Props.C05Send -/
+  startPacket : Outcome Unit := .ok ()
   /-- `_write_connection_close_frame` (QuicPacketBuilderStop for an oversized reason, C16) -/
   closeFrame : Outcome Unit := .ok ()
   /-- `_write_handshake` (C12/C13) -/
@@ -435,20 +441,26 @@ def guardWriter (g : String) (o : Outcome Unit) : Option String :=
     | some .pass => none
     | _ => some (errCls e)
 
+/-- one `try: builder.start_packet(...); <write frames>  except QuicPacketBuilderStop: pass` -/
+def guardBlock (g : String) (startPacket frames : Outcome Unit) : Option String :=
+  match startPacket with
+  | .ok () => guardWriter g frames
+  | .error _ => guardWriter g startPacket
+
 def datagramsToSend (s : St) (w : Writers) : Except String St :=
   if s.state.isEnd then .ok s
   else if s.nPaths = 0 then .ok s                                  -- if not self._network_paths: return []
   else if s.closePending then
     if ¬ s.initialized then .error "KeyError"                    -- self._cryptos[epoch]
-    else match guardWriter "_write_connection_close_frame" w.closeFrame with
+    else match guardBlock "_write_connection_close_frame" w.startPacket w.closeFrame with
       | some cls => .error cls
       | none => .ok (({ s with closePending := false }).closeBegin true)
   else
     if ¬ s.initialized then .error "KeyError"                    -- self._cryptos[epoch] in _write_handshake
-    else match guardWriter "_write_handshake" w.handshake with
+    else match guardBlock "_write_handshake" w.startPacket w.handshake with
       | some cls => .error cls
       | none =>
-        match guardWriter "_write_application" w.application with
+        match guardBlock "_write_application" w.startPacket w.application with
         | some cls => .error cls
         | none => .ok s
 
